@@ -24,6 +24,9 @@ type C18Case struct {
 	// ExecPath (leaf/flow nodes): 0 exec succeeds at once; 1 first attempt fails, retry succeeds
 	// (N=2); 2 every attempt fails and the fallback recovers.
 	ExecPath int `json:"exec_path,omitempty"`
+	// PreCancelled (batch nodes): the context is already done when the batch is run; a batch
+	// still calls post then, and when that run reports success the action must be non-empty.
+	PreCancelled bool `json:"pre_cancelled,omitempty"`
 }
 
 type markNode struct {
@@ -72,6 +75,11 @@ func (c *C18Case) build() flyt.Node {
 func checkC18(t *testing.T, c C18Case) Verdict {
 	node := c.build()
 	ctx := context.Background()
+	if c.PreCancelled {
+		cctx, cancel := context.WithCancel(ctx)
+		cancel()
+		ctx = cctx
+	}
 	wantDefault := c.PostAct == "" || c.PostAct == "default" || (c.Node == "batch" && c.NoPost)
 	cls := []string{c.Node, "post=" + c.PostAct, fmt.Sprintf("exec-path-%d", c.ExecPath)}
 	if c.Node == "batch" {
@@ -80,6 +88,9 @@ func checkC18(t *testing.T, c C18Case) Verdict {
 	if !c.InFlow {
 		act, err := flyt.Run(ctx, node, flyt.NewSharedStore())
 		if err != nil {
+			if c.PreCancelled {
+				return ok(false, append(cls, "cancelled-run-fails")...) // not a successful run: nothing to assert
+			}
 			return bad("C18:harness", "unexpected error %v", err)
 		}
 		if act == "" {
@@ -99,6 +110,9 @@ func checkC18(t *testing.T, c C18Case) Verdict {
 	flow.Connect(node, "custom", other)
 	flow.Connect(node, "", other) // an edge on the empty action must never be followed
 	if err := flow.Run(ctx, flyt.NewSharedStore()); err != nil {
+		if c.PreCancelled {
+			return ok(false, append(cls, "cancelled-run-fails")...)
+		}
 		return bad("C18:harness", "unexpected error %v", err)
 	}
 	if wantDefault != (sentinel.ran == 1) {
@@ -147,6 +161,9 @@ func TestC18(t *testing.T) {
 						for _, noPost := range []bool{false, true} {
 							for _, ptr := range []bool{false, true} {
 								run(C18Case{Node: "batch", PostAct: act, BatchN: n, BatchC: c, Form: form, NoPost: noPost, BatchPtr: ptr, InFlow: inFlow})
+								if !inFlow {
+									run(C18Case{Node: "batch", PostAct: act, BatchN: n, BatchC: c, Form: form, NoPost: noPost, BatchPtr: ptr, PreCancelled: true})
+								}
 							}
 						}
 					}
